@@ -38,7 +38,24 @@ pub const ORIGINS: &[&str] = &[
     "http://b.test/",
     "HTTP://A.TEST/x",
     "http://B.test/",
+    // near misses (indices 6..): the other scheme's default port, the same port under the other
+    // scheme, hosts that extend one another, IP literals. No two entries from here on, and none of
+    // them with an entry above, denote the same (scheme, host, effective port).
+    "http://a.test:443/",
+    "https://a.test:80/",
+    "https://a.test:8080/",
+    "http://a.test:8081/",
+    "http://xa.test/",
+    "http://a.test.example/",
+    "http://127.0.0.1/",
+    "http://127.0.0.1:8080/",
+    "http://[::1]/",
+    "https://[::1]/",
+    "http://[::1]:8080/",
+    "https://b.test:8443/",
 ];
+
+pub const NEAR_MISS_FROM: usize = 6;
 
 /// URI for an origin index: the fixed table first, then arbitrarily many synthetic origins that also
 /// differ in port and scheme.
@@ -52,11 +69,13 @@ pub fn origin_uri(idx: usize) -> String {
 
 /// Normalised pool-relevant origin: (scheme, authority) lower-cased.
 pub fn origin_key(uri: &http::Uri) -> String {
-    format!(
-        "{}://{}",
-        uri.scheme_str().unwrap_or("").to_ascii_lowercase(),
-        uri.authority().map(|a| a.as_str().to_ascii_lowercase()).unwrap_or_default()
-    )
+    let scheme = uri.scheme_str().unwrap_or("").to_ascii_lowercase();
+    let default_port = match scheme.as_str() {
+        "http" | "ws" => 80,
+        "https" | "wss" => 443,
+        _ => 0,
+    };
+    format!("{}://{}:{}", scheme, uri.host().unwrap_or("").to_ascii_lowercase(), uri.port_u16().unwrap_or(default_port))
 }
 
 #[derive(Clone, Copy, Debug, PartialEq, Eq)]
@@ -2258,6 +2277,36 @@ pub fn many_origins_strategy(max_ops: usize) -> impl Strategy<Value = PoolCase> 
             ops.insert(0, Op::Sweep { n });
             PoolCase { cfg: PoolCfg { idle_timeout_ms: None, max_idle: 32, cont, req_timeout_ms: None }, ops }
         })
+}
+
+/// Histories over a small random subset of the whole origin table (near misses included): origins
+/// that differ only in an explicit port equal to the other scheme's default, in scheme with the same
+/// explicit port, in a host prefix/suffix, or that are IP literals.
+pub fn near_origins_strategy(wt: Weights, max_ops: usize) -> impl Strategy<Value = PoolCase> {
+    (2usize..=4).prop_flat_map(move |k| {
+        let wt = Weights { origins: k as u8, ..wt };
+        (
+            proptest::collection::vec(0u16..=u16::MAX, k),
+            any::<bool>(),
+            cfg_any_strategy(),
+            proptest::collection::vec(op_strategy(wt), 0..max_ops),
+        )
+            .prop_map(move |(picks, family, cfg, ops)| {
+                // `family`: stay within the entries about a.test (base table 0..3 plus near misses 6..12)
+                let pool: Vec<u8> = if family { vec![0, 1, 2, 4, 6, 7, 8, 9, 10, 11] } else { (0..ORIGINS.len() as u8).collect() };
+                let chosen: Vec<u8> = picks.iter().map(|r| pool[idx(*r, pool.len()).unwrap_or(0)]).collect();
+                let ops = ops
+                    .into_iter()
+                    .map(|op| match op {
+                        Op::Issue { origin, h2 } => Op::Issue { origin: chosen[origin as usize % chosen.len()], h2 },
+                        Op::Warm { origin, h2 } => Op::Warm { origin: chosen[origin as usize % chosen.len()], h2 },
+                        Op::Hold { origin, h2 } => Op::Hold { origin: chosen[origin as usize % chosen.len()], h2 },
+                        other => other,
+                    })
+                    .collect();
+                PoolCase { cfg, ops }
+            })
+    })
 }
 
 pub fn cfg_any_strategy() -> impl Strategy<Value = PoolCfg> {
